@@ -100,6 +100,7 @@ Ltac bool_cases :=
 Definition holds_lock_pc (p : pc) : bool :=
   match p with
   | LoadReg true | LoadKey true _ | Register | StoreReg _ | StoreKey _ | Rollback _ | Unlock _ => true
+  | DLoadReg _ | DLoadKey _ _ | DelReg _ | DelKey _ | DUnlock _ => true
   | _ => false
   end.
 
@@ -268,6 +269,25 @@ Proof.
     step_cases H. intros c0. pose proof (HA c0) as HA0. unfold ind in *. cbn in *. exact HA0.
 Qed.
 
+(** ... and conversely, as long as no Unlock fails: the lock is held only by a thread inside a
+    locked region (every way out of one — success, error, crash — releases it) *)
+Definition I_held (s : state) : Prop :=
+  forall t, lock s = Some t -> holds_lock_pc (pcof s t) = true.
+
+Lemma I_held_step s l s' :
+  I_lock s -> I_held s -> step s l = Some s' -> unlock_fault s l = false -> I_held s'.
+Proof.
+  intros HI HH H Hu. unfold unlock_fault in Hu. step_cases H; rewrite ?Heqp in Hu; try discriminate Hu; pc_tests; intros t0 Ht0; cbn in *; crash_norm; cbn in *; upd_all; cbn in *;
+    bool_cases; res_cases; cbn in *;
+    try discriminate; try reflexivity; try (apply HH; assumption); try congruence.
+  all: try (injection Ht0 as <-; congruence).
+  all: try (match goal with Hl : lock _ = Some ?u |- _ =>
+              let X := fresh in pose proof (HH u Hl) as X; rw_pcs; cbn in X; discriminate X end).
+  all: try (pose proof (HH t0 Ht0) as X; rewrite ?Heqp, ?Heqp0 in X; cbn in X; try discriminate X; use_lock HI; congruence).
+  all: try (destruct (lock s) as [h|] eqn:HLK; [|discriminate]; destruct (Nat.eqb_spec h t); [discriminate|];
+            injection Ht0 as ->; try congruence; apply HH; assumption).
+Qed.
+
 (* ------------------------------------------------------------------ account numbers are the CA's *)
 
 Definition ok (s : state) (c : ca) (a : acct) : Prop := 1 <= a <= created s c.
@@ -279,6 +299,8 @@ Definition pc_ok (s : state) (c : ca) (p : pc) : Prop :=
   | LoadKey _ r => ok s c r
   | StoreReg a | StoreKey a | Rollback a => ok s c a
   | Unlock (Some m) | Order m _ | DelReg m | DelKey m | Done (Some m) => ok_m s c m
+  | DWantLock m | DLoadReg m => ok_m s c m
+  | DLoadKey m r => ok_m s c m /\ ok s c r
   | _ => True
   end.
 
@@ -302,7 +324,7 @@ Proof.
   - destruct HS0 as [X Y]. destruct (s_key _); lia.
   - (* another thread of the same CA while the CA created an account *)
     match goal with |- context [t_pc (thr s ?u)] => rename u into t1 end.
-    clear - HT0. destruct (pcof s t1) as [| | | | | | | |[?|]| | | |[?|]]; lia.
+    clear - HT0. destruct (pcof s t1); res_cases; lia.
 Qed.
 
 (** invariants are inherited along runs *)
@@ -333,7 +355,11 @@ Qed.
 
 (* ------------------------------------------------------------------ no re-installed CA, no deletion *)
 
-Definition is_del (p : pc) : bool := match p with DelReg _ | DelKey _ => true | _ => false end.
+Definition is_del (p : pc) : bool :=
+  match p with
+  | DWantLock _ | DLoadReg _ | DLoadKey _ _ | DelReg _ | DelKey _ | DUnlock _ => true
+  | _ => false
+  end.
 
 Definition K (s : state) : Prop :=
   forall c, resets s c = 0 ->
@@ -361,13 +387,18 @@ Proof.
     (split; [exact HF|split; [try exact HD|]]); try (intros t0 Ht0; pose proof (HP t0) as HP0);
     cbn in *; upd_all; cbn in *; bool_cases; res_cases; cbn in *; try reflexivity; try (apply HP0; assumption);
     try congruence.
-  - (* Order -> DelReg is impossible: the account is live *)
+  (* the recreate path itself is impossible: no thread of this CA is in it *)
+  all: try (exfalso; match goal with
+            | Hpc : t_pc (thr ?s0 ?u) = _, Hc : t_ca (thr ?s0 ?u) = _ |- _ =>
+                let X := fresh in pose proof (HP u Hc) as X; rewrite Hpc in X; discriminate X
+            end).
+  all: try (exfalso; match goal with
+            | Hpc : t_pc (thr ?s0 ?u) = _ |- _ =>
+                let X := fresh in pose proof (HP u eq_refl) as X; rewrite Hpc in X; discriminate X
+            end).
+  - (* Order -> DWantLock is impossible: the account is live *)
     exfalso. apply live_false in Heqb0. pose proof (HT t) as X. rewrite Heqp in X.
     destruct X as [[X1 X2] _]. subst c0. lia.
-  - (* DelReg itself is impossible *)
-    pose proof (HP t eq_refl) as X. rewrite Heqp in X. discriminate.
-  - pose proof (HP0 Ht0) as X. rewrite Heqp in X. discriminate.
-  - pose proof (HP t eq_refl) as X. rewrite Heqp in X. discriminate.
 Qed.
 
 (* ------------------------------------------------------------------ persisted together *)
@@ -412,6 +443,9 @@ Proof.
                          let Z := fresh in pose proof (Y u ltac:(congruence)) as Z; rewrite Hpc in Z; discriminate Z
                      end).
   all: try (lock_facts HI; congruence).
+  all: try (injection Hp0 as <-; eapply (Q3 t); [assumption|rewrite Heqp; reflexivity]).
+  all: try (injection Hp0 as <-;
+            split; [apply Nat.eqb_eq; assumption|]; eapply (Q3 t); [assumption|rewrite Heqp; reflexivity]).
   - (* StoreKey succeeds: the reg file already holds the same account *)
     injection Hk0 as <-. eapply Q1; [reflexivity|exact Heqp].
   - (* ... and nobody else is saving *)
@@ -422,10 +456,6 @@ Proof.
     pose proof (Y t eq_refl) as Z. rewrite Heqp in Z. discriminate Z.
   - exfalso. destruct (Q4 t0 m0 E0 Hp0) as [_ X]. destruct (Q2 _ X) as [_ Y].
     pose proof (Y t eq_refl) as Z. rewrite Heqp in Z. discriminate Z.
-  - injection Hp0 as <-. eapply (Q3 t); [assumption|rewrite Heqp; reflexivity].
-  - injection Hp0 as <-.
-    split; [apply Nat.eqb_eq; assumption|].
-    eapply (Q3 t); [assumption|rewrite Heqp; reflexivity].
 Qed.
 
 (* ------------------------------------------------------------------ the invariant *)
@@ -498,4 +528,32 @@ Proof.
   destruct (inv_Q _ H c Hd) as (_ & Q2 & _ & Q4).
   destruct (Q4 t m Hc Hp) as [E Hk]. destruct (Q2 _ Hk) as [Hr _].
   split; [congruence|]. destruct (slots s c) as [r k]. cbn in *. congruence.
+Qed.
+
+(* ------------------------------------------------------------------ the lock is given back *)
+
+Lemma I_held_run ls : forall s s1,
+  Inv s -> I_held s -> run s ls = Some s1 -> unlock_faults s ls = 0 -> I_held s1.
+Proof.
+  induction ls as [|l r IH]; intros s s1 HI HH Hr Hu; cbn in *.
+  - injection Hr as <-. exact HH.
+  - destruct (step s l) as [s2|] eqn:Es; [|discriminate].
+    destruct (unlock_fault s l) eqn:Eu; [discriminate|]. cbn in Hu.
+    apply (IH s2 s1); auto.
+    + eapply Inv_step; eassumption.
+    + eapply I_held_step; [exact (inv_lock _ HI)|exact HH|exact Es|exact Eu].
+Qed.
+
+(** when no issuance is in flight (every thread has finished — with a certificate, an error or
+    a crash — or has not started) and no Unlock has failed, the registration lock is free: no
+    path through newACMEClientWithAccount or deleteAccountLocallyIfCurrent leaks it *)
+Theorem lock_free_when_quiescent ls s :
+  run init ls = Some s -> unlock_faults init ls = 0 ->
+  (forall t, finished (pcof s t) = true) -> lock s = None.
+Proof.
+  intros Hr Hu Hq. destruct (lock s) as [t|] eqn:E; [|reflexivity].
+  assert (HH : I_held s).
+  { eapply I_held_run; [exact Inv_init| |exact Hr|exact Hu]. intros t0 H. cbn in H. discriminate. }
+  pose proof (HH t E) as X. specialize (Hq t).
+  destruct (pcof s t); cbn in *; discriminate.
 Qed.
